@@ -280,13 +280,13 @@ def _field_operators(model, rep):
     # IndexError - which jax arrays never raise (indices are clamped): the
     # documented idiom 'x, y = w.x' fails and f(*w.x) never terminates
     cons = "JaxDiscreteField:iteration-protocol"
-    if "__getitem__" not in cls.methods or (
-            "__iter__" in cls.methods and "__len__" in cls.methods):
-        rep.ok(R4, cons, "__iter__ and __len__ delegate to the value")
+    if "__getitem__" not in cls.methods or "__iter__" in cls.methods:
+        rep.ok(R4, cons, "__iter__ is defined (iteration does not fall back "
+               "to indexing until IndexError)")
     else:
         rep.fail(R4, cls.path, "JaxDiscreteField", cons,
-                 "the class defines __getitem__ but not __iter__ / "
-                 "__len__: unpacking a field ('x, y = w.x', the idiom of "
+                 "the class defines __getitem__ but not __iter__: "
+                 "unpacking a field ('x, y = w.x', the idiom of "
                  "the documentation) raises and iterating over it "
                  "(f(*w.x), zip(u, v)) never terminates, because jax "
                  "clamps out-of-range indices instead of raising "
@@ -660,6 +660,10 @@ MUTANTS = [
       "[[w if i <= j else 0. * w for i in range(n)]"), "C20-R1"),
 ]
 TWINS = [
+    ("autodiff field wrapper without __len__ (iteration works through "
+     "__iter__)",
+     (_AD, "    def __len__(self):\n        return len(self.value)\n\n",
+      "")),
     ("autodiff: energy flag read with a presence test and the value",
      (_AD, "            if self.params.get('hessian', False):",
       "            if 'hessian' in self.params and self.params['hessian']:")),
